@@ -374,6 +374,12 @@ func genNet(r *core.Rand, seed uint64, prof int) simnet.Config {
 		nc.ChunkMode = r.Pick(0, 1, 1, 3)
 		nc.ChunkMaxLen = r.Pick(16, 64)
 	}
+	// writes that wait together travel as one byte run in a third of the runs (hash-derived so
+	// that no other choice moves): e.g. the POST header of the HTTP tunnel and the first base64
+	// block behind it, or two pipelined elements, then reach the reader in one read
+	if x := core.HS(seed, "c04.coalesce", "", 0) % 100; x < 33 {
+		nc.Coalesce = []float64{0.3, 0.7, 1}[x%3]
+	}
 	return nc
 }
 
@@ -669,6 +675,11 @@ func shrink(sc Scenario) []Scenario {
 	if sc.Net.ChunkMode != 0 {
 		c := cloneSc(sc)
 		c.Net.ChunkMode = 0
+		out = append(out, c)
+	}
+	if sc.Net.Coalesce != 0 {
+		c := cloneSc(sc)
+		c.Net.Coalesce = 0
 		out = append(out, c)
 	}
 	for si := 0; si < 2; si++ {
